@@ -174,17 +174,21 @@ theorem scope_complete_unique_ports (f : Flags) (hfix : f.visGuard = true)
           exact Or.inr ⟨x', sameDest s _ hr x' ((vsPorts_some hq).1.trans (trim_core _ _ _ _ _).1), rfl⟩
   -- the VirtualService part of a listener keeps the invariant and a cover
   have vsPart : ∀ (ilw : ILW) (acc : List Svc), CInv o acc →
-      CInv o (ilw.vss.foldl (fun a v => (vsDestinations v cfgNs).foldl (addVSDest f m svcs cfgNs ilw.matchPort) a) acc) ∧
+      CInv o (ilw.vss.foldl (fun a v => (vsDestinations v cfgNs).foldl (addVSDestX f m svcs cfgNs ilw.hosts ilw.matchPort) a) acc) ∧
       ((∃ e ∈ acc, PortCover o e) →
-        ∃ e ∈ ilw.vss.foldl (fun a v => (vsDestinations v cfgNs).foldl (addVSDest f m svcs cfgNs ilw.matchPort) a) acc, PortCover o e) := by
+        ∃ e ∈ ilw.vss.foldl (fun a v => (vsDestinations v cfgNs).foldl (addVSDestX f m svcs cfgNs ilw.hosts ilw.matchPort) a) acc, PortCover o e) := by
     intro ilw acc hacc
     -- flatten: a fold of folds is a fold over steps each of which is a destination step
     induction ilw.vss generalizing acc with
     | nil => exact ⟨hacc, fun hc => hc⟩
     | cons v t ih =>
       rw [List.foldl_cons]
-      obtain ⟨j1, j2⟩ := cover_foldl (o := o) (addVSDest f m svcs cfgNs ilw.matchPort) (vsDestinations v cfgNs)
-        (fun acc d _ => stepDest ilw.matchPort acc d) acc hacc
+      obtain ⟨j1, j2⟩ := cover_foldl (o := o) (addVSDestX f m svcs cfgNs ilw.hosts ilw.matchPort) (vsDestinations v cfgNs)
+        (fun acc d _ => by
+          unfold addVSDestX
+          split
+          · exact Or.inl rfl
+          · exact stepDest ilw.matchPort acc d) acc hacc
       obtain ⟨i1, i2⟩ := ih _ j1
       exact ⟨i1, fun hc => i2 (j2 hc)⟩
   -- a whole listener keeps the invariant and a cover
@@ -353,6 +357,9 @@ theorem scope_ports_sound (f : Flags) (hfix : f.visGuard = true) (m : Mesh) (svc
       apply foldl_inv (P := fun a => ∀ x ∈ a, PortsFrom m svcs cfgNs x)
       · exact hb
       · intro b' d _ hb'
+        unfold addVSDestX
+        split
+        · exact hb'
         unfold addVSDest
         cases hr : resolveDest f m svcs cfgNs d.1 with
         | none => exact hb'
